@@ -1,5 +1,5 @@
 \* exhaustive: every input over {a = & % + 1 NUL} up to MaxLen, every chunking, 3 modes x 2 plus settings
 CONSTANTS Alphabet = {97, 61, 38, 37, 43, 49, 0}  MaxLen = 4
 SPECIFICATION Spec
-INVARIANTS StreamEqualsRef RefShape
+INVARIANTS StreamEqualsRef RefShape XConservative
 CHECK_DEADLOCK FALSE
